@@ -420,7 +420,11 @@ func (fx *FnExec) decodeFixed(t types.Type, src Content, off *Term) Value {
 		}
 		v := src.Elem(off)
 		for i := 1; i < w/8; i++ {
-			v = Concat(v, src.Elem(Add(off, BV64(uint64(i)))))
+			if fx.littleEndian {
+				v = Concat(src.Elem(Add(off, BV64(uint64(i)))), v)
+			} else {
+				v = Concat(v, src.Elem(Add(off, BV64(uint64(i)))))
+			}
 		}
 		return Scalar{v}
 	case *types.Array:
@@ -469,6 +473,8 @@ func (fx *FnExec) binaryRead(fr *Frame, st *State, call *ssa.CallCommon, args []
 	if !ok || r.Dyn == nil || !(strings.HasSuffix(r.Dyn.String(), "bytes.Buffer") || strings.HasSuffix(r.Dyn.String(), "bytes.Reader")) {
 		panic(Unsupported{fmt.Sprintf("binary.Read from %v", args[0])})
 	}
+	fx.setByteOrder(args[1])
+	defer func() { fx.littleEndian = false }()
 	b, buf, off := fx.bufParts(fr, st, call, r.V, site)
 	if b == nil {
 		return
@@ -557,6 +563,11 @@ func (fx *FnExec) encodeValue(st *State, b *PtrV, v Value, t types.Type) bool {
 		for i := w/8 - 1; i >= 0; i-- {
 			e = append(e, Extract(8*i+7, 8*i, x.T))
 		}
+		if fx.littleEndian {
+			for i, j := 0, len(e)-1; i < j; i, j = i+1, j-1 {
+				e[i], e[j] = e[j], e[i]
+			}
+		}
 		fx.bufAppend(st, b, CVec{E: e, W: 8}, BV64(0), BV64(uint64(len(e))))
 		return true
 	case SliceV:
@@ -598,11 +609,29 @@ func (fx *FnExec) encodeValue(st *State, b *PtrV, v Value, t types.Type) bool {
 	return false
 }
 
+// setByteOrder selects the byte order of the binary.Read / binary.Write in progress from its ByteOrder argument;
+// an order the engine cannot identify takes the function out of the modelled subset.
+func (fx *FnExec) setByteOrder(order Value) {
+	if o, ok := order.(IfaceV); ok && o.Dyn != nil {
+		switch {
+		case strings.HasSuffix(o.Dyn.String(), "encoding/binary.bigEndian"):
+			fx.littleEndian = false
+			return
+		case strings.HasSuffix(o.Dyn.String(), "encoding/binary.littleEndian"):
+			fx.littleEndian = true
+			return
+		}
+	}
+	panic(Unsupported{fmt.Sprintf("binary.Read/Write with a byte order the engine cannot identify (%v)", order)})
+}
+
 func (fx *FnExec) binaryWrite(fr *Frame, st *State, call *ssa.CallCommon, args []Value, site string, k func(*State, Value)) {
 	w, ok := args[0].(IfaceV)
 	if !ok || w.Dyn == nil || !strings.HasSuffix(w.Dyn.String(), "bytes.Buffer") {
 		panic(Unsupported{"binary.Write to non-Buffer"})
 	}
+	fx.setByteOrder(args[1])
+	defer func() { fx.littleEndian = false }()
 	b, _, _ := fx.bufParts(fr, st, call, w.V, site)
 	if b == nil {
 		return
